@@ -30,3 +30,16 @@ P("C09",
                 "modelled, not verified: value-to-bytes conversion of the carrier (x2bytes/bytebuf), template parsing of the directive letters (both covered by the correspondence run)"],
   assumptions=["net/url.QueryUnescape and url.QueryEscape are the reference decoders/encoders (implementation-side oracle)",
                "the Gallina decoder Spec/DecURL.v is differential-tested against net/url on the escaper's image and on random strings"])
+
+P("C07",
+  title="JSON escaping always yields a valid JSON string that decodes to the input",
+  emode=True,
+  technique="Rocq proof (induction over byte strings, token-shape lemmas, closed 256-byte sweeps) of round-trip and alphabet theorems over a Gallina model of mod_json.go against an RFC 8259 string decoder; model tied to the code by exhaustive/random correspondence through the extracted model; region sentence via the interpreter model",
+  level_text=("Machine-checked theorems (Props/C07.v): for every byte string json_unquote(json_quote s) = Some s, the escaped body contains no raw quote/control and every backslash starts a valid escape, n letters = n-fold application, tokens are ASCII. "
+              "The model runs (extracted) against the real engine on every byte < 0x80 x all forms, all byte pairs, a stride (quick) or all (thorough) Unicode scalar values, random valid-UTF-8 strings and jsonquote regions around raw text; encoding/json decides the property on the real output; the Gallina decoder is differential-tested against encoding/json."),
+  level_note="Trusted: Coq kernel, extraction + OCaml driver, Go harness, encoding/json as reference decoder. Invalid UTF-8 input is outside the property's quantifier (the byte-level theorem holds anyway).",
+  design_ref="5 C07",
+  trusted_base=[KERNEL, EXTRACT, HARNESS,
+                "modelled, not verified: value-to-bytes conversion of the carrier (x2bytes/bytebuf), parsing of the directive letters; both exercised by the correspondence run"],
+  assumptions=["encoding/json is the reference JSON string decoder (implementation-side oracle and validation target of Spec/DecJSON.v)",
+               "lone surrogates decode to U+FFFD as in encoding/json"])
